@@ -50,16 +50,59 @@ class GE(GD):
         return [self.z]
 
 
+@labtech.task
+class GH:
+    """A sized task (a dataset with a length): instances with n == 0 are falsy."""
+    n: int = 0
+    dep: Any = None
+
+    def __len__(self):
+        return self.n
+
+    def run(self) -> int:
+        return self.n
+
+
+def _family():
+    """Task types made by a helper function; their (postponed) annotations name things that are not
+    module globals."""
+    class Settings:
+        pass
+
+    @labtech.task
+    class GL:
+        cfg: Settings = None
+        dep: GLInner = None
+
+        def run(self):
+            return None
+
+    @labtech.task
+    class GLInner:
+        x: int = 0
+        peer: Settings | None = None
+
+        def run(self) -> int:
+            return self.x
+
+    return GL, GLInner
+
+
+GL, GLInner = _family()
+GL.__qualname__ = 'GL'
+GLInner.__qualname__ = 'GLInner'
+
 from .gtypes2 import GF, GG  # noqa: E402
 
 FIELDS = {GA: ('x',), GB: ('one', 'many'), GC: ('a', 'b'), GD: ('p', 'label'), GE: ('p', 'label', 'z'),
-          GF: ('a', 'b', 'c', 'd', 'dep'), GG: ('b', 'a', 'd', 'c', 'dep')}
+          GF: ('a', 'b', 'c', 'd', 'dep'), GG: ('b', 'a', 'd', 'c', 'dep'), GH: ('n', 'dep'), GL: ('cfg', 'dep'), GLInner: ('x', 'peer')}
 RUN_RETURN = {GA: 'int', GB: 'dict', GC: None, GD: 'list[int]', GE: 'list[int]',
-              GF: 'typing.Optional[int]', GG: 'int | None'}
+              GF: 'typing.Optional[int]', GG: 'int | None', GH: 'int', GL: None, GLInner: 'int'}
 # the annotation of every parameter as written in the class body (what a reader of the diagram expects to see)
 FIELD_TYPES = {
     GA: {'x': 'int'}, GB: {'one': 'Any', 'many': 'Any'}, GC: {'a': 'Any', 'b': 'Any'}, GD: {'p': 'Any', 'label': 'str'},
     GE: {'p': 'Any', 'label': 'str', 'z': 'int'},
     GF: {'a': 'typing.Optional[float]', 'b': 'float | None', 'c': 'typing.Union[int, str]', 'd': 'typing.Union[str, int]', 'dep': 'Any'},
+    GH: {'n': 'int', 'dep': 'Any'}, GL: {'cfg': 'Settings', 'dep': 'GLInner'}, GLInner: {'x': 'int', 'peer': 'Settings | None'},
     GG: {'a': 'typing.Optional[float]', 'b': 'float | None', 'c': 'typing.Union[int, str]', 'd': 'typing.Union[str, int]', 'dep': 'Any'},
 }
